@@ -46,7 +46,7 @@ pub fn valid_identifier_8<S: Source>(s: &mut S) {
 }
 proof!(#[kani::unwind(10)] c14_valid_identifier_4 => valid_identifier_4);
 proof!(#[kani::unwind(12)] c14_valid_identifier_6 => valid_identifier_6);
-proof!(#[kani::unwind(14)] c14_valid_identifier_8 => valid_identifier_8);
+proof!(#[kani::unwind(24)] c14_valid_identifier_8 => valid_identifier_8);
 
 /// H-ID-unicode: strings of up to 3 characters below U+0800 (one- and two-byte UTF-8): only
 /// ASCII letters, digits and `_` make a Lua name.
